@@ -2,6 +2,8 @@
 the implementation runner (public API of /repo), canonical records and their comparison."""
 import json, os, shutil, signal, subprocess, sys, tempfile, traceback
 
+import noise
+
 VERIF = os.path.dirname(os.path.dirname(os.path.abspath(__file__)))
 REPO = os.environ.get("VERIF_REPO", "/repo")
 DRIVER = os.path.join(VERIF, "driver", "driver")
@@ -42,10 +44,16 @@ def enc_path(p):
     return "%d %s" % (len(p), " ".join(enc_str(c) for c in p))
 
 
+def as_read(content):
+    """what Python's text-mode read returns for a file holding `content` (universal newlines): the model's
+    file system maps a path to the decoded text the code sees"""
+    return content.replace("\r\n", "\n").replace("\r", "\n")
+
+
 def enc_fs(root, files):
     items = []
     for rel, content in sorted(files.items()):
-        items.append(enc_path(root + rel.split("/")) + " " + enc_str(content))
+        items.append(enc_path(root + rel.split("/")) + " " + enc_str(as_read(content)))
     return "%d %s" % (len(items), " ".join(items))
 
 
@@ -66,7 +74,7 @@ def encode_case(c):
         if files is None:
             return "COMP %s 0 0 %s" % (enc_opts(c.get("opts")), enc_str(c["text"]))
         main = c["main"]
-        return "COMP %s 1 %s %s %s" % (enc_opts(c.get("opts")), enc_path(root + main.split("/")), enc_fs(root, files), enc_str(files[main]))
+        return "COMP %s 1 %s %s %s" % (enc_opts(c.get("opts")), enc_path(root + main.split("/")), enc_fs(root, files), enc_str(as_read(files[main])))
     if k == "raw":
         return "RAWC %s 0 0 %d %s" % (enc_opts(c.get("opts")), len(c["lines"]), " ".join(enc_raw(x) for x in c["lines"]))
     if k == "tab":
@@ -231,6 +239,8 @@ def run_impl_case(c, timeout=20.0):
     I = impl()
     ds = I["ds"]
     signal.signal(signal.SIGALRM, _alarm)
+    if not c.get("no_noise"):
+        noise.maybe_run(ds)
     signal.setitimer(signal.ITIMER_REAL, timeout)
     scratch = None
     try:
